@@ -72,6 +72,16 @@ def observe(ops: List[Dict[str, Any]], doc_t: Dict[str, Any], entry: str) -> Dic
     try:
         if entry == "apply":
             out = jsonpath.patch.apply(copy.deepcopy(ops), doc)
+        elif entry == "JSONPatch-applied-twice":
+            # one patch object, two documents: the second application must not see anything of the first
+            patch = JSONPatch(copy.deepcopy(ops))
+            try:
+                first = patch.apply(untag(doc_t))
+                if isinstance(first, (list, dict)):
+                    first.clear()      # what the caller does with a result is the caller's business
+            except Exception:  # noqa: BLE001
+                pass
+            out = patch.apply(doc)
         else:
             out = JSONPatch(copy.deepcopy(ops)).apply(doc)
     except BaseException as e:  # noqa: BLE001
@@ -104,7 +114,7 @@ def replay(rec: Dict[str, Any]) -> List[Tuple[str, Dict[str, Any], str]]:
     ops = [op_dict(h) for h in hist]
     for k in range(1, len(hist) + 1):
         exp = hist[k - 1]["after"]
-        for entry in ("apply", "JSONPatch"):
+        for entry in ("apply", "JSONPatch", "JSONPatch-applied-twice"):
             obs = observe(ops[:k], rec["doc0"], entry)
             disc = judge(exp, obs)
             if disc:
